@@ -161,6 +161,27 @@ def long_history(s, owners, thunks, always, deadline_s=240.0, n=LONG_N):
         except Exception as e:  # noqa: BLE001
             s.violation(f"long_history:exception_on_first_call:{lab}:" + exc_sig(e), {"call": lab}, repr(e))
             return
+    # the same calls made from another thread than the one that imported the library (one after the other -- no concurrency): a
+    # call's result does not depend on which thread makes it
+    import threading
+
+    for lab, f in thunks:
+        box = {}
+
+        def run(f=f, box=box):
+            try:
+                box["r"] = f()
+            except BaseException as e:  # noqa: BLE001
+                box["e"] = e
+
+        t = threading.Thread(target=run)
+        t.start()
+        t.join()
+        if "e" in box:
+            s.violation(f"long_history:exception_when_called_from_another_thread:{lab}:" + exc_sig(box["e"]), {"call": lab}, repr(box["e"]))
+        elif box.get("r") != want[lab]:
+            s.violation(f"long_history:result_differs_when_called_from_another_thread:{lab}", {"call": lab})
+        s.case(nontrivial=True, calls=1, outcome="other_thread")
     before = hidden_state(*owners)
     for lab, f in thunks:
         for _ in range(2):
